@@ -261,6 +261,8 @@ void env_define_var_with_type_info(Environment *env, const char *name, Type type
     sym.from_c_header = false;  /* Not from C header (normal nanolang variable) */
     sym.def_line = 0;     /* Will be set by type checker if needed */
     sym.def_column = 0;
+    sym.scope_end_line = 0;   /* Set by the type checker when the declaring block ends */
+    sym.scope_end_column = 0;
 
     /* WORKAROUND: Check if symbol already exists and preserve/update metadata */
     /* This handles a bug where symbols are added multiple times during type-checking.
@@ -344,6 +346,13 @@ Symbol *env_get_var_visible_at(Environment *env, const char *name, int line, int
 
         if (sline > line) continue;
         if (sline == line && column > 0 && scol > column) continue;
+
+        /* A variable declared in a block that ended before this location is out of scope: the
+         * name means an outer variable again (or nothing). */
+        if (sym->scope_end_line > 0 &&
+            (line > sym->scope_end_line || (line == sym->scope_end_line && column > sym->scope_end_column))) {
+            continue;
+        }
 
         return sym;
     }
